@@ -454,7 +454,11 @@ impl GenSource {
                 let room = 8192usize.saturating_sub(unc + owner_len + 10);
                 let delta = *self.rng.pick(&[-40i64, -1, 0, 1, 2, 40, 3000]);
                 let n = (room as i64 + delta).max(1) as usize;
-                let n = n.min(60000);
+                let mut n = n.min(60000);
+                if self.rng.chance(1, 12) {
+                    // a record whose own wire length is around 65536 (data lengths up to 65535 are legal)
+                    n = *self.rng.pick(&[65535usize, 65534, 65526, 65520, 65510, 65500, 65280]);
+                }
                 Some(self.gen_insert_rr(v, Some(n)))
             }
             8 => {
